@@ -29,6 +29,10 @@ structure Facts where
   /-- the option handed to a sub-graph is built from `opt.deepCopy()`; `false` = it aliases the
       caller's Option, so the rewriting of `paths` is visible to the caller -/
   nestedCopies : Bool
+  /-- `Option.DesignateNodeWithPath` copies `o.paths` into a fresh array before appending;
+      `false` = `o.paths = append(o.paths, path...)` on the value receiver, which writes into the
+      spare capacity of the array the receiver shares with the caller's Option -/
+  designateCopies : Bool
   deriving DecidableEq, Repr
 
 /-- `compose.Option` as far as routing is concerned. All values of one Option have the same
@@ -258,5 +262,85 @@ def runCalls (F : Facts) : List Opt → List Call → List (Except RunErr (List 
     let r := run F c.g (pick store c.ixs)
     let rest := runCalls F (storeAfter F store c) cs
     (r :: rest.1, rest.2)
+
+/-! ### constructing Options: `DesignateNode` / `DesignateNodeWithPath` (graph_call_options.go)
+
+  `Option` is a struct passed by value, but its `paths []*NodePath` field is a slice: the copy
+  shares the backing array. The model keeps Go's slice semantics: a heap of backing arrays and,
+  per Option value, a slice header (array, len, cap). -/
+
+/-- slice header of `Option.paths` -/
+structure Hdr where
+  arr : Nat
+  len : Nat
+  cap : Nat
+  deriving DecidableEq, Repr
+
+/-- `heap id` = the cells of backing array `id`; ids below `next` are allocated;
+    `opts` = the Option values built so far, in construction order. -/
+structure BState where
+  heap : Nat → List Path
+  next : Nat
+  opts : List Hdr
+
+inductive BuildOp where
+  /-- a fresh Option without designation (`WithLambdaOption`, `WithCallbacks`, …): empty `paths` -/
+  | base
+  /-- `opts[src].DesignateNodeWithPath(added...)` (`DesignateNode(k...)` = singleton paths) -/
+  | designate (src : Nat) (added : List Path)
+  deriving DecidableEq, Repr
+
+def BState.init : BState := { heap := fun _ => [], next := 0, opts := [] }
+
+/-- `s[:len]` -/
+def pathsOf (st : BState) (h : Hdr) : List Path := (st.heap h.arr).take h.len
+
+def setArr (heap : Nat → List Path) (id : Nat) (cells : List Path) : Nat → List Path :=
+  fun j => if j = id then cells else heap j
+
+/-- overwrite `cells[pos .. pos+|xs|)` -/
+def writeAt (cells : List Path) (pos : Nat) (xs : List Path) : List Path :=
+  cells.take pos ++ xs ++ cells.drop (pos + xs.length)
+
+/-- capacity chosen by Go's `append` for a slice of pointers when it has to reallocate (small
+    sizes: double or the needed length, rounded up to the allocator's size class). Only the
+    in-place variant depends on it; the theorems hold for every growth function. -/
+def goGrow (oldCap needed : Nat) : Nat :=
+  let c := if needed > 2 * oldCap then needed else 2 * oldCap
+  if c ≤ 4 then c else c + c % 2
+
+def bstep (copies : Bool) (grow : Nat → Nat → Nat) (st : BState) : BuildOp → BState
+  | .base =>
+    { heap := setArr st.heap st.next [], next := st.next + 1, opts := st.opts ++ [⟨st.next, 0, 0⟩] }
+  | .designate src added =>
+    let h := (st.opts[src]?).getD ⟨st.next, 0, 0⟩
+    let n := h.len + added.length
+    if copies then
+      -- make + append(o.paths...) + append(path...): always a fresh array
+      { heap := setArr st.heap st.next (pathsOf st h ++ added), next := st.next + 1,
+        opts := st.opts ++ [⟨st.next, n, n⟩] }
+    else if n ≤ h.cap then
+      -- append within capacity: writes into the array shared with the receiver's original
+      { heap := setArr st.heap h.arr (writeAt (st.heap h.arr) h.len added), next := st.next,
+        opts := st.opts ++ [⟨h.arr, n, h.cap⟩] }
+    else
+      let c := grow h.cap n
+      { heap := setArr st.heap st.next (pathsOf st h ++ added ++ List.replicate (c - n) []),
+        next := st.next + 1, opts := st.opts ++ [⟨st.next, n, c⟩] }
+
+def build (copies : Bool) (grow : Nat → Nat → Nat) (ops : List BuildOp) : BState :=
+  ops.foldl (bstep copies grow) BState.init
+
+/-- the designated paths of every constructed Option, as seen after the whole construction -/
+def builtPaths (copies : Bool) (grow : Nat → Nat → Nat) (ops : List BuildOp) : List (List Path) :=
+  let st := build copies grow ops
+  st.opts.map (pathsOf st)
+
+/-- what the API promises: a derived Option designates its base's paths plus the added ones -/
+def specStep (acc : List (List Path)) : BuildOp → List (List Path)
+  | .base => acc ++ [[]]
+  | .designate src added => acc ++ [((acc[src]?).getD []) ++ added]
+
+def specPaths (ops : List BuildOp) : List (List Path) := ops.foldl specStep []
 
 end EinoV.C16
